@@ -27,6 +27,7 @@ type litterCase struct {
 	Out      string            `json:"out"`       // "" | "nonempty" | "empty": use --out
 	Creates  []string          `json:"creates"`   // tables created by the program
 	LockOn   string            `json:"lock_on"`   // table a competing holder has locked (timeout endings)
+	LongName bool              `json:"long_name"` // one table has a 236-249 byte file name (run with a short wait timeout)
 }
 
 var cellPool = []string{"a", "b", "hello", "x y", "", "42", "3.5", "Z"}
@@ -47,6 +48,14 @@ func genTable(t *rapid.T, label string) string {
 func genCase(t *rapid.T) litterCase {
 	c := litterCase{Tables: map[string]string{}}
 	names := []string{"t1.csv", "t2.csv", "t3.csv"}[:fw.Range(t, "ntables", 1, 3)]
+	if fw.Pct(t, "longName", 8) {
+		// a table whose name is so long that ".NAME.lock"/".NAME.temp" (NAME+6 bytes) still fit the file-name
+		// limit of 255 bytes while the read-lock name ".NAME.<12 random>.rlock" (NAME+20) does not: reading it
+		// must fail cleanly (lock-timeout family) and leave nothing behind; updating it works
+		long := strings.Repeat("n", fw.Range(t, "longLen", 232, 245)) + ".csv"
+		names = append(names, long)
+		c.LongName = true
+	}
 	for _, n := range names {
 		c.Tables[n] = genTable(t, n)
 	}
@@ -206,6 +215,9 @@ func (r runner) runOnce(dir string, c litterCase, to time.Duration, env []string
 		args = append(args, "--out", filepath.Join(dir, "result.out"))
 	}
 	args = append(args, extraArgs...)
+	if c.LongName && len(extraArgs) == 0 {
+		args = append(args, "--wait-timeout", "0.2")
+	}
 	return run.CLI(run.CLIOpt{Bin: r.bin, Dir: dir, Home: r.home, Args: args, Env: env, Timeout: to})
 }
 
@@ -297,6 +309,9 @@ var sigNums = map[string]int{"INT": 2, "TERM": 15, "QUIT": 3}
 
 func checkCase(c litterCase) (fw.Outcome, *fw.Violation) {
 	o := fw.Outcome{Classes: []string{"ending=" + c.Ending, fmt.Sprintf("readonly=%v", c.ReadOnly), "out=" + c.Out}}
+	if c.LongName {
+		o.Classes = append(o.Classes, "long_table_name")
+	}
 	bin, err := run.Binary(fw.WorkDir(), false)
 	if err != nil {
 		return o, fw.Harness("%v", err)
